@@ -3,8 +3,10 @@
    logarithm), Msg an arbitrary type of signed messages with decidable equality, H : Msg -> F an
    arbitrary hash-to-group function, VerifySig pk m sigma  <->  sigma = sk * H m, sigma, pk <> identity
    (C14), [sel] an arbitrary choice of the share-map entries used by the recovery.
-   [party_final bind e ms] = state of the signing party after the verify messages [ms], ANY contents in
-   ANY order (a message is a sender id, a claimed data hash, and two arbitrary points or nil);
+   [party_final_from bind e fut ms] = state of the signing party after the verify messages [fut] that
+   were stored while the proposal was still being checked and are replayed by round1.Start, followed
+   by the verify messages [ms] — ANY contents in ANY order (a message is a sender id, a claimed data
+   hash, and two arbitrary points or nil); [party_final bind e ms] is the case [fut = nil];
    [bind = true] is the handler with the data-hash comparison (the code as repaired). *)
 From Coq Require Import ZArith.
 From mathcomp Require Import all_ssreflect all_algebra.
@@ -16,6 +18,8 @@ Delimit Scope Z_scope with ZZ.
 
 Definition pfinal (F : fieldType) (M : eqType) (H : M -> F) (sel : seq (F * F) -> seq nat) :=
   @party_final F M (fops F) eq_op eq_op (fun x => x == 0) (fun x => x == 0) eq_op H sel.
+Definition pfinal_from (F : fieldType) (M : eqType) (H : M -> F) (sel : seq (F * F) -> seq nat) :=
+  @party_final_from F M (fops F) eq_op eq_op (fun x => x == 0) (fun x => x == 0) eq_op H sel.
 (* the recovery may use any k or more distinct entries of the share map, in any order *)
 Definition sel_any (F : Type) (k : nat) (sel : seq (F * F) -> seq nat) : Prop :=
   forall m : seq (F * F), (k <= size m)%N ->
@@ -27,8 +31,8 @@ Arguments sel_any {F} k sel.
    sender's valid share for the hash of the block being signed (resp. for the previous beacon value). *)
 Theorem C15_set_valid :
   forall (F : fieldType) (M : eqType) (H : M -> F) (sel : seq (F * F) -> seq nat)
-         (e : @env F M) (ms : seq (@msg F M)),
-  let st := p_st (pfinal F M H sel true e ms) in
+         (e : @env F M) (fut ms : seq (@msg F M)),
+  let st := p_st (pfinal_from F M H sel true e fut ms) in
   [/\ uniq (map fst (g_map (st_g st))),
       map fst (g_map (st_g st)) = map fst (g_map (st_r st)),
       forall id s, (id, s) \in g_map (st_g st) ->
@@ -49,14 +53,14 @@ Theorem C15_recovered_verifies :
   all (fun cs => size cs <= k)%N dealers -> (0 < k)%N -> e_thr e = k ->
   (forall id sk, lookup eq_op id (e_members e) = Some sk -> sk = member_key (fops F) dealers id) ->
   e_gsk e = group_secret (fops F) dealers -> sel_any k sel ->
-  forall ms : seq (@msg F M),
-  let st := p_st (pfinal F M H sel true e ms) in
+  forall fut ms : seq (@msg F M),
+  let st := p_st (pfinal_from F M H sel true e fut ms) in
   [/\ forall s, g_sig (st_g st) = Some s -> s = e_gsk e * H (e_bh e),
       forall s, g_sig (st_r st) = Some s -> s = e_gsk e * H (e_pr e),
       forall a b, st_hdr st = Some (a, b) -> st_can st ->
         a = e_gsk e * H (e_bh e) /\ b = e_gsk e * H (e_pr e) &
       g_sig (st_g st) = None -> (size (g_map (st_g st)) < k)%N].
-Proof. move=> F M H sel e k dealers dk k0 thr mem gsk so ms; exact: (@recovered_verifies F M H sel e k dealers dk k0 thr mem gsk so ms). Qed.
+Proof. move=> F M H sel e k dealers dk k0 thr mem gsk so fut ms; exact: (@recovered_verifies F M H sel e k dealers dk k0 thr mem gsk so fut ms). Qed.
 Print Assumptions C15_recovered_verifies.
 
 (* ... and therefore the finalizer's check of the recovered signatures never ends the party with an
@@ -69,13 +73,15 @@ Theorem C15_no_error_end :
   (forall id sk, lookup eq_op id (e_members e) = Some sk -> sk = member_key (fops F) dealers id) ->
   e_gsk e = group_secret (fops F) dealers -> sel_any k sel ->
   e_existed e = false -> [/\ e_gsk e != 0, H (e_bh e) != 0 & H (e_pr e) != 0] ->
-  forall ms : seq (@msg F M), p_phase (pfinal F M H sel true e ms) <> Closed.
-Proof. move=> F M H sel e k dealers dk k0 thr mem gsk so ne nz ms; exact: (@no_error_end F M H sel e k dealers dk k0 thr mem gsk so ne nz ms). Qed.
+  forall fut ms : seq (@msg F M), p_phase (pfinal_from F M H sel true e fut ms) <> Closed.
+Proof. move=> F M H sel e k dealers dk k0 thr mem gsk so ne nz fut ms; exact: (@no_error_end F M H sel e k dealers dk k0 thr mem gsk so ne nz fut ms). Qed.
 Print Assumptions C15_no_error_end.
 
 (* Liveness: if the messages of k distinct members carrying their valid share and beacon share are
-   among those delivered — anywhere in the sequence, interleaved with any number of arbitrary
-   messages of any senders — the block is finalised with the group signature. *)
+   among those delivered (before or after the round started) — anywhere in the sequence, interleaved
+   with any number of arbitrary messages of any senders — the block is finalised with the group
+   signature.  [honestb H e m]: m claims the block hash, its sender has a registered key, and its two
+   points verify under that key for the block hash and the previous beacon value. *)
 Theorem C15_one_faulty_cannot_block :
   forall (F : fieldType) (M : eqType) (H : M -> F) (sel : seq (F * F) -> seq nat)
          (e : @env F M) (k : nat) (dealers : seq (seq F)),
@@ -83,13 +89,13 @@ Theorem C15_one_faulty_cannot_block :
   (forall id sk, lookup eq_op id (e_members e) = Some sk -> sk = member_key (fops F) dealers id) ->
   e_gsk e = group_secret (fops F) dealers -> sel_any k sel ->
   e_existed e = false -> [/\ e_gsk e != 0, H (e_bh e) != 0 & H (e_pr e) != 0] ->
-  forall ms : seq (@msg F M),
-  (k <= size (undup [seq m_sender m | m <- ms & honestb H e m]))%N ->
-  p_phase (pfinal F M H sel true e ms) = Finished /\
-  st_hdr (p_st (pfinal F M H sel true e ms)) = Some (e_gsk e * H (e_bh e), e_gsk e * H (e_pr e)).
+  forall fut ms : seq (@msg F M),
+  (k <= size (undup [seq m_sender m | m <- fut ++ ms & honestb H e m]))%N ->
+  p_phase (pfinal_from F M H sel true e fut ms) = Finished /\
+  st_hdr (p_st (pfinal_from F M H sel true e fut ms)) = Some (e_gsk e * H (e_bh e), e_gsk e * H (e_pr e)).
 Proof.
-move=> F M H sel e k dealers dk k0 thr mem gsk so ne nz ms kh.
-exact: (@one_faulty_cannot_block F M H sel e k dealers dk k0 thr mem gsk so ne nz ms kh).
+move=> F M H sel e k dealers dk k0 thr mem gsk so ne nz fut ms kh.
+exact: (@one_faulty_cannot_block F M H sel e k dealers dk k0 thr mem gsk so ne nz fut ms kh).
 Qed.
 Print Assumptions C15_one_faulty_cannot_block.
 
@@ -129,8 +135,8 @@ Example C15_example_hypotheses :
   [/\ all (fun cs => size cs <= 1)%N dealers,
       forall id sk, lookup eq_op id (e_members e) = Some sk -> sk = member_key (fops F) dealers id,
       e_gsk e = group_secret (fops F) dealers, sel_any 1%N sel &
-      (1 <= size (undup [seq m_sender m | m <- ms & honestb H e m]))%N] /\
-  p_phase (pfinal F nat_eqType H sel true e ms) = Finished.
+      (1 <= size (undup [seq m_sender m | m <- [::] ++ ms & honestb H e m]))%N] /\
+  p_phase (pfinal_from F nat_eqType H sel true e [::] ms) = Finished.
 Proof.
 move=> F H sel e dealers ms.
 have dk : all (fun cs => size cs <= 1)%N dealers by [].
@@ -140,10 +146,10 @@ have gsk : e_gsk e = group_secret (fops F) dealers by rewrite /group_secret /= a
 have so : sel_any 1%N sel.
   move=> m km; rewrite /sel iota_uniq size_iota; split=> //.
   by apply/allP => i; rewrite mem_iota.
-have kh : (1 <= size (undup [seq m_sender m | m <- ms & honestb H e m]))%N by [].
+have kh : (1 <= size (undup [seq m_sender m | m <- [::] ++ ms & honestb H e m]))%N by [].
 split; first by split.
 have nz : [/\ e_gsk e != 0, H (e_bh e) != 0 & H (e_pr e) != 0] by [].
-by have [] := @C15_one_faulty_cannot_block F nat_eqType H sel e 1 dealers dk isT erefl mem gsk so erefl nz ms kh.
+by have [] := @C15_one_faulty_cannot_block F nat_eqType H sel e 1 dealers dk isT erefl mem gsk so erefl nz [::] ms kh.
 Qed.
 
 Example C15_example_repaired_run :
